@@ -69,7 +69,9 @@ T2wide == Cont(T1w1, 3)
 T2sub == {one, ListV(<<>>), ObjV(<<>>), ListV(<<one>>), ObjV(<<Ent(kA, one)>>), ListV(<<ListV(<<>>)>>),
           ListV(<<ObjV(<<>>)>>), ObjV(<<Ent(kA, ListV(<<>>))>>), ObjV(<<Ent(kA, ObjV(<<>>))>>),
           ListV(<<one, ListV(<<>>)>>), ListV(<<ListV(<<>>), one>>),
-          ObjV(<<Ent(kA, ListV(<<>>)), Ent(kB, one)>>), ObjV(<<Ent(kA, one), Ent(kB, ListV(<<>>))>>)}
+          ObjV(<<Ent(kA, ListV(<<>>)), Ent(kB, one)>>), ObjV(<<Ent(kA, one), Ent(kB, ListV(<<>>))>>),
+          ListV(<<ListV(<<one>>)>>), ListV(<<ObjV(<<Ent(kA, one)>>)>>), ObjV(<<Ent(kA, ListV(<<one>>))>>),
+          ObjV(<<Ent(kA, ObjV(<<Ent(kA, one)>>))>>)}
 T3 == Cont(T2sub, 2)
 
 Adj == {one, FloatV("f1_5"), IntV("m1"), sa, StrV(<<>>), SymV(<<"A">>), VarV(<<"v">>), NullV, BoolV(TRUE),
